@@ -121,6 +121,9 @@ def main(tier: str) -> int:
             if j[0] == "base":
                 continue
             what = {"variant": j[0], "kind": j[1], "seed": j[2], "parallel": j[3]["parallel"]}
+            if r["rc"] == -9:
+                v.mismatch(f"run with {what} hit the harness timeout")
+                continue
             if r["rc"] != 0:
                 v.violation("run_failed", f"run with {what} failed (rc={r['rc']}): {r['err'][-200:]}", {"config": j[3]})
                 continue
